@@ -8,7 +8,7 @@ import re
 from hsa.core import AnalysisError, Repo, Report, body_walk, call_name, dotted, find_assign, kwarg, last_attr, src
 from hsa.flow import _loop_level
 from hsa.fold import fold_in
-from hsa.rules.common import guard_set, if_chain, method_calls
+from hsa.rules.common import csrc, guard_set, if_chain, method_calls
 
 EXPLANATION = (
     "Decides: encode()'s isinstance chain covers every subclass of Type defined in calldata.py and ends in a "
@@ -115,7 +115,7 @@ def r12_4_candidates(repo: Repo, rep: Report):
     m = repo.mod("calldata")
     _, gds = repo.fn("calldata.Calldata.get_dyn_sizes")
     apps = [c for c in method_calls(gds, "append") if dotted(c.func) == "self.dyn_params.append"]
-    ok = len(apps) == 1 and src(apps[0].args[0]) == "DynamicParam(name, sizes, size_var, typ)" and not guard_set(m, apps[0])
+    ok = len(apps) == 1 and src(apps[0].args[0]) == "DynamicParam(name, sizes, size_var, typ)" and not guard_set(m, apps[0], silent=True)
     rep.check("R12.4", ok, m, apps[0] if apps else gds, src(apps[0]) if apps else "self.dyn_params.append(...)", "every dynamic parameter must be recorded with its full candidate list and its own length symbol")
     sz = [src(v) for v in find_assign(gds, "sizes")]
     ok = sz == ["self.args.array_lengths.get(name)", "self.args.default_array_lengths if isinstance(typ, DynamicArrayType) else self.args.default_bytes_lengths"]
@@ -191,7 +191,8 @@ def r12_5_static_dynamic(repo: Repo, rep: Report):
             for r in ast.walk(i):
                 if isinstance(r, ast.Return) and isinstance(r.value, ast.Call) and call_name(r.value) == "EncodingResult":
                     gs = guard_set(m, r)
-                    key = ty + (":bytes" if "typ.typ in ['bytes', 'string']" in gs else (":word" if "typ.typ not in ['bytes', 'string']" in gs else ""))
+                    cgs = {csrc(g) for g in gs}
+                    key = ty + (":bytes" if csrc("typ.typ in ['bytes', 'string']") in cgs else (":word" if csrc("typ.typ not in ['bytes', 'string']") in cgs else ""))
                     flags[key] = (src(r.value.args[0]), src(r.value.args[1]), src(r.value.args[2]))
                 elif isinstance(r, ast.Return):
                     flags[ty] = ("encode_tuple", src(r.value), "")
@@ -234,7 +235,11 @@ def r12_6_create(repo: Repo, rep: Report):
     rep.rule("R12.6", "create(): selector first, all encoded words appended in order, size self-check before returning")
     m, cr = repo.fn("calldata.Calldata.create")
     t = src(cr)
-    ok = "calldata.append(bytes.fromhex(fun_info.selector))" in t and "tuple_type = parse_tuple_type('', fun_abi['inputs'])" in t and "encoded = self.encode('', tuple_type)" in t
+    from hsa.origin import origin_text
+
+    top_apps = [c for c in body_walk(cr) if isinstance(c, ast.Call) and dotted(c.func) == "calldata.append" and not any(isinstance(a, (ast.For, ast.While)) for a in m.ancestors(c))]
+    first_is_selector = bool(top_apps) and origin_text(m, cr, top_apps[0].args[0]).replace("$", "") == "bytes.fromhex(fun_info.selector)"
+    ok = first_is_selector and len(top_apps) == 1 and "tuple_type = parse_tuple_type('', fun_abi['inputs'])" in t and "encoded = self.encode('', tuple_type)" in t
     rep.check("R12.6", ok, m, cr, "selector, then encode('', tuple of inputs)", "calldata must be selector || enc(inputs)")
     loops = [l for l in body_walk(cr) if isinstance(l, ast.For)]
     ok = len(loops) == 1 and src(loops[0].iter) == "encoded.data" and [src(s) for s in loops[0].body] == ["calldata.append(data)"]
